@@ -192,7 +192,7 @@ def run(tier, seed):
         for ch in chunked(pairs, max(1, len(pairs) // 3000 + 1) * 8):
             shards.append(('nbpairs', name, ch))
     # decisions
-    mshards, info = M.space(tier, parts=('b',))
+    mshards, info = M.space(tier, parts=('b', 'runs'))
     for sh in mshards:
         shards.append(('decisions', sh))
     ctx = run_shards(_shard, shards, seed=seed, label=PROP)
